@@ -101,6 +101,7 @@ class VM:
         self.hooks = {}        # callee shape -> python callable (harness-installed environment stubs)
         self.domains = {}      # z3 term id -> set of values still possible on this path (implied by pc)
         self.truths = {}       # z3 Bool term id -> truth value implied by pc
+        self.deadline = getattr(ex, 'deadline', None)
         self.keep = []         # terms whose ids key the two maps above stay referenced (z3 reuses the ids of freed ASTs)
         self.statics = {}
         self.trace = None
@@ -174,6 +175,19 @@ class VM:
         if conds[c] is not None: self.pc.append(conds[c])
         if note is not None: self.notes.append((note, c))
         return c
+
+    def memo(self, compute):
+        """result of a solver-dependent computation, recorded on the trail: during a replayed prefix the solver stack is
+        *ahead* of the execution (it already holds later constraints), so such results must not be recomputed"""
+        ex = self.ex; pos = self.dpos; self.dpos += 1
+        if pos < len(ex.trail):
+            t = ex.trail[pos]; self.ev += 1
+            return t[6]
+        data = compute()
+        t = [0, 1, self.ev + 1, False, True, [None], data]
+        ex.trail.append(t); self.ev += 1
+        ex.solver.push(); ex.levels += 1
+        return data
 
     def branch(self, cond):
         if isinstance(cond, bool): return cond
@@ -323,7 +337,7 @@ class VM:
             if _FLOATLIT.match(c): return 'f64'
             if c in ('true', 'false'): return 'bool'
             if c.startswith("'"): return 'char'
-            m = re.match(r'(\w+)::(MAX|MIN)$', c)
+            m = re.match(r'(?:core::num::)?(?:<impl )?(\w+)>?::(MAX|MIN)$', c)
             if m: return m.group(1)
             if 'SizedTypeProperties>::' in c: return 'usize'
         return ''
@@ -634,13 +648,15 @@ class VM:
         """a symbolic scalar that must be concrete to proceed: fork over its feasible values (bounded)"""
         term = z3.simplify(term)
         if z3.is_bv_value(term): return term.as_long()
-        vals = []
-        # enumerate up to 8 feasible values
-        extra = []
-        for _ in range(9):
-            r, m = self.check_sat(*extra)
-            if r != z3.sat: break
-            v = m.eval(term, model_completion=True); vals.append(v); extra.append(term != v)
+        def enum():
+            vals, extra = [], []
+            for _ in range(9):          # enumerate up to 8 feasible values
+                r, m = self.check_sat(*extra)
+                if r != z3.sat: break
+                v = m.eval(term, model_completion=True); vals.append(v); extra.append(term != v)
+            vals.sort(key=lambda v: v.as_long())
+            return vals
+        vals = self.memo(enum)
         if len(vals) > 8: raise BoundExceeded(f'concretize: more than 8 feasible values for {term}')
         if not vals: raise Infeasible()
         c = self.choose([term == v for v in vals])
@@ -680,7 +696,7 @@ class VM:
                 if f is None: raise Unmodelled('closure? ' + t)
                 return Closure(f, [], fr.subst)
             return FnItem(self.subst_text(canon(t), fr), fr.subst)
-        m = re.match(r'(\w+)::(MAX|MIN)$', c)
+        m = re.match(r'(?:core::num::)?(?:<impl )?(\w+)>?::(MAX|MIN)$', c)
         if m and m.group(1) in INT_TYPES:
             bits, sg = INT_TYPES[m.group(1)]
             if m.group(2) == 'MAX': return (1 << (bits - 1)) - 1 if sg else (1 << bits) - 1
@@ -1054,7 +1070,8 @@ class VM:
                     else: raise Unmodelled('stmt kind ' + k)
                 else:
                     raise Unmodelled(f'block {bb} of {f.name} fell through')
-                if st.steps > self.fuel: raise BoundExceeded(f'fuel exhausted ({self.fuel} MIR steps)')
+                if st.steps > self.fuel: raise BoundExceeded(f'fuel exhausted (MIR steps per path)')
+                if self.deadline and (st.steps & 1023) == 0 and time.time() > self.deadline: raise BoundExceeded('job time limit')
         except PanicEdge as p:
             if not p.site: p.site = f.name
             raise
@@ -1140,7 +1157,7 @@ class VM:
                 return self.new_box(inner)
             return Adt(v.ty, v.variant, [self.clone_val(x) for x in v.fields])
         if isinstance(v, HList): return HList([self.clone_val(x) for x in v.items])
-        if isinstance(v, HMap): return HMap([(self.clone_val(a), self.clone_val(b)) for a, b in v.entries], v.sorted, v.order_tag)
+        if isinstance(v, HMap): return HMap([[self.clone_val(a), self.clone_val(b)] for a, b in v.entries], v.sorted, v.order_tag)
         if isinstance(v, SymEnum):
             s = SymEnum(v.ty, v.disc, v.nvar, (lambda var, src=v: [self.clone_val(x) for x in src.alt(var).fields]), v.tag)
             return s
@@ -1194,6 +1211,12 @@ class VM:
         if kind == 'model':
             st = self.ex.stats; st.models[tgt[3]] = st.models.get(tgt[3], 0) + 1
             return tgt[1](self, args, tgt[2])
+        if kind == 'dyn':
+            # trait object: dispatch on the runtime type of the receiver
+            ci = tgt[1]; recv = args[0]
+            while isinstance(recv, Ref): recv = self.ref_get(recv)
+            if not isinstance(recv, (Adt, SymEnum)): raise Unmodelled(f'dyn dispatch on {recv!r}')
+            return self.call(f'<{recv.ty} as {ci.trait}>::{ci.method}', args, None, None, subst={})
         raise Unmodelled('unresolved callee: ' + callee)
 
 
